@@ -349,8 +349,19 @@ def rule_scheme(repo, rep):
             '' if ok else '%s is %s, documented fD(dissimilar pairs, %s)'
             % (nm, ast.unparse(dv[0]) if dv else None, arg2))
   # ascent step and fallback
+  # (updates of A inside the alternating-projection loop - the loop that
+  # contains the eigen-decomposition - are projection steps, not ascent
+  # steps: they belong to the budget-projection rule)
+  proj_loops = [w_ for w_ in ast.walk(f.node)
+                if isinstance(w_, (ast.While, ast.For)) and
+                not any(isinstance(c_, ast.Call) and
+                        ast.unparse(c_.func).endswith('_grad_projection')
+                        for c_ in ast.walk(w_)) and any(isinstance(c_, ast.Call) and
+                        ast.unparse(c_.func).endswith('eigh')
+                        for c_ in ast.walk(w_))]
+  in_proj = set(id(x) for w_ in proj_loops for x in ast.walk(w_))
   ups = [n for n in ast.walk(f.node) if isinstance(n, ast.AugAssign) and
-         ast.unparse(n.target) == 'A']
+         ast.unparse(n.target) == 'A' and id(n) not in in_proj]
   for n in ups:
     ok = isinstance(n.op, ast.Add) and ast.unparse(n.value) in (
         'alpha * M', 'M * alpha')
